@@ -463,6 +463,14 @@ class SimulatorBackend(LocalBackend):
         # Process final ``CompleteEvent``
         self._time_keeper.advance_to(time_complete + 1e-3)
         self._process_events_until_now()
+        # Results of this trial processed above were reported after the
+        # decision to stop or pause it. They must not be delivered, not even
+        # if the trial is resumed before ``fetch_status_results`` is called
+        # next. They are counted as seen, just like results which are ignored
+        # in ``fetch_status_results``
+        dropped_results = self._next_results_to_fetch.pop(trial_id, None)
+        if dropped_results:
+            self._last_metric_seen_index[trial_id] += len(dropped_results)
         self._time_keeper.mark_exit()
 
     def _run_job_and_collect_results(
